@@ -152,12 +152,14 @@ def parsePos? (p : Str) : Option (Nat × Str) :=
   | [a, b] => (parseNat? a).map (·, b)
   | _ => none
 
-/-- `pos_to_span`: first and last position; `none` = `ValueError`. -/
+/-- `pos_to_span`: the line numbers of the first and of the last position, **sorted** (fix 44b0b15: the last
+captured position follows the first one in the flat AST, not necessarily in the source), and the path of the
+first position; `none` = `ValueError`. -/
 def posToSpan? (pos : List Str) : Option SpanP :=
   match pos.head?, pos.getLast? with
   | some a, some z =>
     match parsePos? a, parsePos? z with
-    | some (s, path), some (e, _) => some ⟨s, e, path⟩
+    | some (s, path), some (e, _) => some ⟨min s e, max s e, path⟩
     | _, _ => none
   | _, _ => none
 
